@@ -158,6 +158,31 @@ class Tables:
         return None
 
 
+def check_unknown_lengths(ctx, prog, fns, tag, len_suffix="enumerator_len"):
+    """V5: an unknown length is not a length.  `enumerator_len()` is None for lazy iterables; comparing two such Options
+    as values (`a.enumerator_len() != b.enumerator_len()`) makes a sized and an unsized sequence with the same items
+    unequal under `==` while `cmp` (which walks the items) calls them Equal.  Inside equality / ordering the Option may
+    only be destructured (both `Some`) before the numbers are compared."""
+    n = 0
+    for f in fns:
+        for c in f.calls():
+            nm_ = (c.full or "") + " " + c.name
+            if not any(x in nm_ for x in ("PartialEq>::eq", "PartialEq>::ne", "PartialEq::eq", "PartialEq::ne", "PartialOrd>::partial_cmp",
+                                          "PartialOrd::partial_cmp", "Ord>::cmp", "Ord::cmp")):
+                continue
+            st = (c.self_ty or {}).get("s", "") if hasattr(c, "self_ty") else ""
+            if "Option" not in c.name and "Option" not in st and "Option" not in (c.full or ""):
+                continue
+            srcs = [o for a in c.args[:2] for o in flow.origins(f, a)]
+            if any(o.kind == "call" and o.call.name.endswith(len_suffix) for o in srcs):
+                n += 1
+                ctx.ob("C07.V5.unknown-length-is-not-compared-as-a-length", tag + f.path, False,
+                       "%s compares two `Option<usize>` lengths as values (%s): a lazy iterable (length unknown) then "
+                       "never equals a sequence with the same items although `cmp` says Equal" % (f.path, c.name.split("::")[-1]),
+                       f.where(c.bb))
+    return n
+
+
 def run(ctx):
     ctx.explain("C07 (variant-level clauses): abstract interpretation of Value::eq / cmp / hash / kind, ops::coerce, "
                 "as_f64 and the integer conversions over all 169 ordered pairs of ValueRepr variants (discriminants "
@@ -282,6 +307,11 @@ def run(ctx):
                             ctx.ob("C07.V2.comparator-is-total", "%s%s|%s" % (tag, f.path, c.name.split("::")[-1]), not badc,
                                    "comparator passed to %s uses %s: not a total order (NaN) / may panic" % (c.name.split("::")[-1], badc),
                                    f.where(c.bb))
+        # ---- V5
+        eqfns = [g for g in prog.fns.values() if g.crate == "minijinja" and (
+            g.path.startswith("<minijinja::value::Value as core::cmp::") or "minijinja::value::Value as core::cmp::" in g.path)]
+        ctx.floor("C07.V5 equality / ordering functions of Value" + tag, len(eqfns), 3)
+        check_unknown_lengths(ctx, prog, eqfns, tag)
         # ---- V4: descending order comes from the comparator, never from reversing a sorted sequence.  A stable sort
         # followed by `reverse()` also reverses the run of items that compare equal, so `sort(reverse=true)` would no
         # longer be a stable descending sort (and would disagree with the attribute form on ties).
@@ -367,3 +397,8 @@ def run(ctx):
             ctx.sample({"kind table": {k: sorted(v) for k, v in T.kind.items()},
                         "coerce may-Some pairs": sorted("%s,%s" % k for k, v in T.coerce.items() if "Some" in v or "?" in v)[:60],
                         "eq may be true": sorted("%s,%s" % k for k, v in eq_true.items() if v)})
+    # positive control for the zero-count rule V5
+    sub5 = type(ctx)(ctx.prop, ctx.tier, ctx.repo)
+    cprog = ctx.controls
+    check_unknown_lengths(sub5, cprog, [cprog.fn("mjsa_controls::c07::differ")], "control:")
+    ctx.control("C07.V5", any(not o[2] for o in sub5.obligations))
